@@ -76,6 +76,16 @@ func recvCorpus() []struct {
 		{0, []rop{bad(0, "", "corrupt").segmented([]seg{{'T', "Q!JD"}, {'C', "REVG"}}), bad(0, "", "truncated").segmented([]seg{{'T', "QUJD"}, {'C', "RA"}}), bad(0, "", "truncated").segmented([]seg{{'T', "QUJDR"}, {'C', "REVG"}}), dgood(0, nil).segmented([]seg{{'T', "QUJD"}, {'C', "REVG"}}), rd(64)}},
 		{8, []rop{dgood(0, []byte("ABCDEF")), rop{kind: 'd', known: true, seq: 1, cls: "oversize"}.segmented([]seg{{'C', "R0hJ"}, {'T', "SktM"}}), rd(8), dgood(1, nil).segmented([]seg{{'C', "R0hJ"}, {'T', "SktM"}}), rd(8)}},
 		{0, []rop{dgood(0, []byte("ABC")), {kind: 'C', tail: []rop{dgood(1, nil).segmented([]seg{{'T', "bGFzdCB3"}, {'C', "b3Jkcw=="}})}}, rd(64), rd(8)}},
+		// message carrier: the packet is one child among others of its <message/> (processing hints,
+		// thread, body, white space, an element named data in another namespace, an IBB element nested
+		// in another child) - before it, after it, on both sides; good and bad packets alike
+		{0, []rop{dgood(0, []byte("plain, ")), dgood(1, []byte("hint after, ")).among(nil, []int{0}), dgood(2, []byte("hint before, ")).among([]int{0}, nil), dgood(3, []byte("thread and hint before")).among([]int{1, 0}, nil), rd(128)}},
+		{0, []rop{dgood(0, []byte("ABC")).among([]int{2}, nil), dgood(1, []byte("DEF")).among([]int{3}, []int{3}), dgood(2, []byte("GHI")).among([]int{4}, nil), dgood(3, []byte("JKL")).among(nil, []int{4}), dgood(4, []byte("MNO")).among([]int{5}, []int{5}), rd(64)}},
+		{0, []rop{bad(0, "REVG!!!!", "corrupt").among([]int{0}, nil), dgood(0, []byte("ABC")).among([]int{0, 1, 2, 3}, []int{3, 0}), rop{kind: 'd', known: true, seq: 5, payload: "QUJD", cls: "wrongseq"}.among([]int{1}, nil), rop{kind: 'd', known: false, seq: 1, payload: "QUJD", cls: "unknownsid"}.among([]int{0}, []int{0}), dgood(1, nil).segmented([]seg{{'T', "REVG"}, {'C', "R0hJ"}}).among([]int{0}, []int{1}), rd(64)}},
+		{8, []rop{dgood(0, []byte("ABCDEF")).among([]int{0}, nil), rop{kind: 'd', known: true, seq: 1, payload: b64([]byte("GHIJKL")), cls: "oversize"}.among([]int{0}, nil), rd(8), dgood(1, []byte("GHIJKL")).among(nil, []int{2}), {kind: 'C', tail: []rop{dgood(2, []byte("mn")).among([]int{0}, nil)}}, rd(8), rd(8), rd(8)}},
+		// stanzas that name the session id of the stream but come from somebody else (another resource
+		// of the peer, its bare address, a third party, the server): not packets of this stream
+		{0, []rop{dgood(0, []byte("ABC")), {kind: 'd', known: true, seq: 1, payload: "ZXZpbA==", cls: "othersender", sender: 3}, {kind: 'd', known: true, seq: 1, payload: "ZXZpbA==", cls: "othersender", sender: 1}, {kind: 'x', sender: 3}, dgood(1, []byte("DEF")), {kind: 'd', known: true, seq: 2, payload: "ZXZpbA==", cls: "othersender", sender: 2}, {kind: 'x', sender: 1}, {kind: 'd', known: true, seq: 2, payload: "ZXZpbA==", cls: "othersender", sender: 4}, {kind: 'x', sender: 4}, dgood(2, []byte("GHI")), rd(64), {kind: 'c'}, rd(8)}},
 		// both directions at once on one connection
 		{0, []rop{{kind: 'w', data: []byte("hello")}, dgood(0, []byte("ABC")), {kind: 'w', data: []byte("wo")}, bad(1, "REVG!!!!", "corrupt"), {kind: 'w', data: []byte("rld!")}, dgood(1, []byte("DEF")), rd(16), {kind: 'C'}}},
 		{8, []rop{dgood(0, []byte("ABCDEF")), {kind: 'w', data: []byte("xy")}, {kind: 'c'}, {kind: 'w', data: []byte("late")}, rd(16), rd(4)}},
@@ -125,6 +135,12 @@ func randRecv(rnd *common.Rand) (int, []rop) {
 				a = "-" + strconv.Itoa(65536-seq)
 			}
 			ops = append(ops, seqAttr(a, "QUJD"))
+		case k == 10 && rnd.Chance(1, 2):
+			if rnd.Chance(1, 3) {
+				ops = append(ops, rop{kind: 'x', sender: 1 + rnd.Intn(4)})
+			} else {
+				ops = append(ops, rop{kind: 'd', known: true, seq: seq, payload: "ZXZpbA==", cls: "othersender", sender: 1 + rnd.Intn(4)})
+			}
 		case k == 10:
 			ops = append(ops, rop{kind: 'd', known: false, seq: seq, payload: "QUJD", cls: "unknownsid"})
 		case k == 11 && !closed && rnd.Chance(1, 2):
@@ -180,6 +196,31 @@ func randRecv(rnd *common.Rand) (int, []rop) {
 			}
 		}
 	}
+	// the carrier message (used with the message carrier only): about one packet in five is one child
+	// among 1..4 others, on either side
+	shape := func(o rop) rop {
+		var bf, af []int
+		for k, m := 0, 1+rnd.Intn(4); k < m; k++ {
+			if rnd.Bool() {
+				bf = append(bf, rnd.Intn(6))
+			} else {
+				af = append(af, rnd.Intn(6))
+			}
+		}
+		return o.among(bf, af)
+	}
+	for i := range ops {
+		if ops[i].kind == 'd' && rnd.Chance(1, 5) {
+			ops[i] = shape(ops[i])
+		}
+		for k := range ops[i].tail {
+			if rnd.Chance(1, 5) {
+				t := append([]rop(nil), ops[i].tail...)
+				t[k] = shape(t[k])
+				ops[i].tail = t
+			}
+		}
+	}
 	return maxbuf, ops
 }
 
@@ -223,7 +264,7 @@ func parseRecvOps(f string) []rop {
 		p := strings.Split(t, ":")
 		switch p[0] {
 		case "d":
-			if len(p) == 4 {
+			if len(p) == 4 || len(p) == 5 {
 				seq, err := strconv.Atoi(p[2])
 				pl, segs := parsePayloadTok(p[3])
 				o := rop{kind: 'd', known: p[1] == "1", seq: seq, payload: pl, segs: segs, cls: "replay"}
@@ -233,12 +274,19 @@ func parseRecvOps(f string) []rop {
 				} else if err != nil || seq > 65535 {
 					o.attr, o.raw = p[2], true
 				}
+				if len(p) == 5 {
+					if bf, af, ok := parseShapeTok(p[4]); ok {
+						o = o.among(bf, af)
+					}
+				}
 				if inTail {
 					ops[len(ops)-1].tail = append(ops[len(ops)-1].tail, o)
 					continue
 				}
 				ops = append(ops, o)
 			}
+		case "x":
+			ops = append(ops, rop{kind: 'x', sender: 3})
 		case "b":
 			n, _ := strconv.Atoi(p[1])
 			ops = append(ops, rop{kind: 'b', n: n})
@@ -407,7 +455,19 @@ func Run(r *common.Run) error {
 		r.Mark("case table-concurrent %d", i)
 		runTableConcurrent(r, carrier, r.Pick(6, 12))
 	}
+	npc := 0
+	for _, carrier := range []string{"iq", "message"} {
+		for _, after := range []int{1, 2, r.Pick(5, 9)} {
+			r.Mark("case peer-close-while-writing %d", npc)
+			npc++
+			runPeerCloseWhileWriting(r, carrier, after)
+		}
+	}
 	if r.Race() {
+		for i := 0; i < 16; i++ {
+			r.Mark("case peer-close-while-writing-race %d", i)
+			runPeerCloseWhileWriting(r, []string{"iq", "message"}[i%2], 1+i%7)
+		}
 		for i := 0; i < 4; i++ {
 			r.Mark("case table-concurrent-race %d", i)
 			runTableConcurrent(r, []string{"iq", "message"}[i%2], 8+4*i)
